@@ -94,6 +94,8 @@ pub(crate) struct Conn {
     pub(crate) counter_rx: Arc<MessageCounter>,
     pub(crate) daemon_open: Option<bgp::Open>,
     pub(crate) from: IpAddr,
+    /// the session's per-family prefix-limit counters (max, counter)
+    pub(crate) limits: Vec<(Family, u32, Arc<std::sync::atomic::AtomicU64>)>,
 }
 
 /// Open a TCP connection from `from` and hand the server side to the real
@@ -125,10 +127,11 @@ pub(crate) async fn connect(d: &Daemon, from: IpAddr, role: crate::fsm::Role) ->
         return Ok(None);
     };
     let counter_rx = Arc::clone(&session.counter_rx);
+    let limits = session.prefix_counters.iter().map(|(f, (max, c))| (*f, *max, Arc::clone(c))).collect();
     let global = d.global.clone();
     let active_tx = d.active_tx.clone();
     let join = tokio::spawn(async move { session.run(global, active_tx).await });
-    Ok(Some(Conn { stream: Some(client), rx: bytes::BytesMut::with_capacity(8192), codec: bgp::PeerCodec::new(), join: Some(join), counter_rx, daemon_open: None, from }))
+    Ok(Some(Conn { stream: Some(client), rx: bytes::BytesMut::with_capacity(8192), codec: bgp::PeerCodec::new(), join: Some(join), counter_rx, daemon_open: None, from, limits }))
 }
 
 impl Conn {
@@ -279,5 +282,13 @@ pub(crate) async fn admin_shutdown(d: &Daemon, addr: IpAddr) {
     let g = d.global.read().await;
     if let Some(p) = g.peers.get(&addr) {
         p.context.lock().unwrap().force_down(CloseReason::AdminShutdown, false);
+    }
+}
+
+/// The hard reset_peer API: Cease/peer-deconfigured to every live session, neighbour stays configured.
+pub(crate) async fn hard_reset(d: &Daemon, addr: IpAddr) {
+    let g = d.global.read().await;
+    if let Some(p) = g.peers.get(&addr) {
+        p.context.lock().unwrap().force_down(CloseReason::SendMessage(bgp::Message::Notification(rustybgp_packet::Notification::CeasePeerDeconfigured)), false);
     }
 }
